@@ -55,7 +55,8 @@ class C01(Check):
                   "under scripted fault schedules with a virtual clock are the implementation-level oracle.")
     rule = ("k=0: arrival lists (permutation, loss, duplication) over 1-6 messages x 1-4 fragments x 1-3 streams, "
             "TSN origins at wrap points, plus adversarial lists (random flags/TSNs, FORWARD-TSN); k=1: two real "
-            "endpoints, 1-3 channels, 8-70 scheduled ops; distinct by (case, outputs); non-trivial = at least one "
+            "endpoints, 1-3 channels, 8-70 scheduled ops (a quarter of them: one stream id used by 2-3 channels in a row, closed by either "
+            "side, DCEP-opened or negotiated, with reordering on every incarnation); distinct by (case, outputs); non-trivial = at least one "
             "message delivered and at least one duplicate, reordering or loss")
 
     @staticmethod
@@ -86,7 +87,11 @@ class C01(Check):
         if r < 0.30:
             # reliable channels alone, or sharing the association with partially reliable ones (the oracle
             # judges the reliable channels only; abandonment next door must not disturb them)
-            if rng.random() < 0.5:
+            q = rng.random()
+            if q < 0.25:
+                # a stream id used by several channels in a row (closed by either side, DCEP-opened or negotiated)
+                return SC.gen_recycle(rng, origins=ORIGINS)
+            if q < 0.6:
                 return SC.gen_scenario(rng, reliable_only=True, origins=ORIGINS)
             return SC.gen_scenario(rng, pr=True, origins=ORIGINS, big=(rng.random() < 0.3))
         base = rng.choice(ORIGINS)
